@@ -18,6 +18,14 @@ def classify_conc(ev):
         return "race:%s:%s" % (ev.get("loc", "").split(":")[0], ev.get("kind")), ev
     return "conc:" + ev.get("ev", "?"), ev
 
+def fatal_map(v, txt, where):
+    """The Go runtime stops a process on an unsynchronised map access: that is the violation itself."""
+    m = re.search(r"fatal error: concurrent map[^\n]*", txt)
+    if m:
+        i = txt.find(m.group(0))
+        v.fail("runtime-fatal:concurrent-map", {"what": m.group(0), "where": where, "stack": txt[i:i + 2500]})
+    return bool(m)
+
 def run():
     t0 = time.time(); v = vlib.Verdict(PID); acc = Acc(); th = vlib.TIER == "thorough"
     r = tlc_require_ok(tlc("V1Classifier", "V1ClassifierFixed.cfg", timeout=900), "V1ClassifierFixed")
@@ -42,6 +50,8 @@ def run():
                 v.fail("race-detector", {"reports": n, "first": (m.group(1) if m else txt)[:2500]})
             elif rc != 0:
                 raise vlib.Inconclusive("driver under -race failed:\n" + txt[-3000:])
+            continue
+        if fatal_map(v, txt, "stringclassifier"):
             continue
         if rc != 0:
             raise vlib.Inconclusive("concurrent driver failed:\n" + txt[-3000:])
@@ -75,6 +85,8 @@ def run():
             elif rc != 0:
                 raise vlib.Inconclusive("License driver under -race failed:\n" + txt[-3000:])
         else:
+            if fatal_map(v, txt, "License"):
+                continue
             if rc != 0:
                 raise vlib.Inconclusive("License concurrent driver failed:\n" + txt[-3000:])
             trace_v1(v, acc, read_ndjson(out), "License: concurrent vs sequential")
@@ -96,6 +108,8 @@ def run():
             elif rc != 0:
                 raise vlib.Inconclusive("v1 backend driver under -race failed:\n" + txt[-3000:])
         else:
+            if fatal_map(v, txt, "v1 backend"):
+                continue
             if rc != 0:
                 raise vlib.Inconclusive("v1 backend driver failed:\n" + txt[-3000:])
             rb = read_ndjson(outb)
